@@ -315,6 +315,17 @@ def rand_fcfg(rng):
                 else:
                     body.append(["V", rng.choice(CATS), rand_feats(rng, feats)])
         prods.append([h, rand_feats(rng, feats), body])
+    if rng.random() < 0.2 and feats:
+        # two productions that differ only by an extra feature on their LAST body symbol (either one first)
+        cat = rng.choice(CATS)
+        f0 = {feats[0]: rng.choice(ATOMS)}
+        f1 = dict(f0, **{(feats[1] if len(feats) > 1 else "h"): rng.choice(ATOMS)})
+        pre = [["T", rng.choice("ab")]] if rng.random() < 0.4 else []
+        pair = [[rng.choice(CATS), {}, pre + [["V", cat, f1]]], None]
+        pair[1] = [pair[0][0], {}, pre + [["V", cat, f0]]]
+        if rng.random() < 0.5:
+            pair.reverse()
+        prods[rng.randrange(len(prods) + 1):0] = pair
     if rng.random() < 0.2 and prods:
         # a second production with the same skeleton but other features
         h, hf, body = rng.choice(prods)
@@ -477,8 +488,15 @@ def vtxt(name, feats):
     return '"VAR:' + name + ftxt(feats) + '"'
 
 
+INLINE_EPS = 0      # >0 while a text is rendered with epsilon symbols written INSIDE non-empty bodies
+
+
 def body_text(body):
-    return " ".join((x[1] if x[0] == "T" else vtxt(x[1], x[2])) for x in body) if body else "epsilon"
+    toks = [(x[1] if x[0] == "T" else vtxt(x[1], x[2])) for x in body]
+    if INLINE_EPS and toks:
+        # an epsilon symbol inside a body is no symbol: A -> B $ C is A -> B C
+        toks.insert((INLINE_EPS + len(toks)) % (len(toks) + 1), ["$", "epsilon"][INLINE_EPS % 2])
+    return " ".join(toks) if toks else "epsilon"
 
 
 def lower_cats(c):
@@ -540,7 +558,13 @@ def build_fcfg(c):
     from pyformlang.fcfg import FCFG, FeatureStructure, FeatureProduction
     from pyformlang.cfg import Variable, Terminal
     if c["via"] == "text":
-        return FCFG.from_text(to_text(with_refs(c["prods"]) if c.get("refs") else c["prods"], bars=c.get("bars", False)))
+        global INLINE_EPS
+        INLINE_EPS = c.get("inline_eps", 0)
+        try:
+            text = to_text(with_refs(c["prods"]) if c.get("refs") else c["prods"], bars=c.get("bars", False))
+        finally:
+            INLINE_EPS = 0
+        return FCFG.from_text(text)
     prods = set()
     for h, hf, body in c["prods"]:
         variables = {}
@@ -593,6 +617,8 @@ def plan(tier, rng, sl, nslices, stats):
             continue
         if rng.random() < 0.15:
             c = lower_cats(c)
+        if c["via"] == "text" and rng.random() < 0.2:
+            c["inline_eps"] = rng.randint(1, 4)
         if c["via"] == "text" and rng.random() < 0.35:
             c["refs"] = True
         if c["via"] == "text" and rng.random() < 0.4:
